@@ -2,7 +2,7 @@
 # Build the framework from files on disk only (offline).  Idempotent.
 set -e
 cd "$(dirname "$0")"
-mkdir -p _build/bin _build/replays evidence
+mkdir -p _build/bin _build/replays evidence ocaml/gen coq/Gen
 python3 tools/cxx2coq.py --repo "${VERIF_REPO:-/repo}" --out coq/Gen --cache _build/astcache || true
 cd coq
 coq_makefile -f _CoqProject -o Makefile >/dev/null 2>&1
